@@ -12,13 +12,15 @@ package rdb
 
 import (
 	"bytes"
+	"errors"
+	"io"
 
 	"github.com/facebookincubator/dns/dnsrocks/dnsdata"
 	"github.com/facebookincubator/dns/dnsrocks/zzverif/nd"
 )
 
 //verif:include zz_verif_model.go
-//verif:harness H08_step property=C08 native=no quick=t=3,v2=1,bad=0;t=3,v2=0,bad=1;t=4,v2=0,bad=0 thorough=t=4,v2=1,bad=2;t=5,v2=1,bad=0;t=5,v2=0,bad=1;t=6,v2=1,bad=0
+//verif:harness H08_step property=C08 native=no quick=t=3,v2=1,bad=0;t=3,v2=0,bad=1;t=4,v2=0,bad=0;t=3,v2=1,bad=3 thorough=t=4,v2=1,bad=2;t=5,v2=1,bad=0;t=5,v2=0,bad=1;t=6,v2=1,bad=0
 
 func verifPlainText(n int) []byte {
 	b := nd.Bytes(n)
@@ -96,6 +98,23 @@ func verifSameMap(a, b *VerifSnap, tag string) {
 	}
 }
 
+// verifFailingReader delivers its data and then fails instead of reporting the end of input.
+type verifFailingReader struct {
+	data []byte
+	pos  int
+}
+
+var errVerifRead = errors.New("verif: read error")
+
+func (f *verifFailingReader) Read(p []byte) (int, error) {
+	if f.pos >= len(f.data) {
+		return 0, errVerifRead
+	}
+	n := copy(p, f.data[f.pos:])
+	f.pos += n
+	return n, nil
+}
+
 func H08_step() {
 	t, v2 := nd.Param("t"), nd.Param("v2") == 1
 	tmpl := verifTemplates(t)
@@ -143,7 +162,12 @@ func H08_step() {
 
 	r := VerifNewRDB(storeA, false)
 	pre := storeA.Cur
-	err := r.ApplyDiff(bytes.NewReader(diff), 1)
+	var src io.Reader = bytes.NewReader(diff)
+	if bad == 3 {
+		// the diff cannot be read to its end (I/O error after the lines read so far)
+		src = &verifFailingReader{data: diff}
+	}
+	err := r.ApplyDiff(src, 1)
 	if bad != 0 {
 		nd.Assert(err != nil, "inapplicable-diff-fails")
 		nd.Assert(verifSameSnap(pre, storeA.Cur), "failed-diff-leaves-database-unchanged")
